@@ -218,6 +218,8 @@ struct markerStruct
       rlbox_sandbox<T_Sbx>& sandbox) const noexcept                            \
     {                                                                          \
       Sbx_##libId##_##T<T_Sbx> lhs;                                            \
+      /* The whole object, padding included, is copied into the sandbox */     \
+      std::memset(&lhs, 0, sizeof(lhs));                                       \
       const auto& rhs = get_raw_value_ref();                                   \
       constexpr auto Direction = detail::adjust_type_direction::TO_SANDBOX;    \
       constexpr auto Context = detail::adjust_type_context::SANDBOX;           \
